@@ -16,6 +16,8 @@ expected result is done independently in python.
      the sum / difference / multiple computed here; UnitRebind maps the
      exponents of every named unit back to that named unit; scalar*quantity
      keeps the unit; only NoUnit converts implicitly to its value type;
+     the same for units with rational exponents of different denominators
+     (mass^x.length^-1/2 against mass^y.length^1/3 over a grid of fractions);
  (c) transparency (Engine B): the IR of +, -, *, /, unary - on qt<u,double> is
      the corresponding single floating operation on the payloads.
 """
@@ -110,6 +112,35 @@ def run(tier):
         conv = (a == "NoUnit")
         add("%sstd::is_convertible_v<%s, double>" % ("" if conv else "!", A),
             "%s %s implicitly to double" % (a, "converts" if conv else "does not convert"))
+    # rational exponents: products, quotients and powers of units whose exponents have different denominators
+    L.append("template <int N1, int N2, unsigned int D1, unsigned int D2> using rcanon = typename u::UnitRebind<u::makeUnitExponents<N1, N2, 0, 0, 0, 0, 0, D1, D2, 1, 1, 1, 1, 1>()>::type;")
+    fr = [Fraction(1, 2), Fraction(1, 3), Fraction(2, 3), Fraction(3, 2), Fraction(-1, 2), Fraction(1, 4), Fraction(5, 6), Fraction(1), Fraction(-2), Fraction(0)]
+
+    def rq(x, y):
+        return "qt<rcanon<%d, %d, %d, %d>, double>" % (x.numerator, y.numerator, x.denominator, y.denominator)
+    npairs = 0
+    for x in fr:
+        for y in fr:
+            if tier != "thorough" and (x.denominator == 1 and y.denominator == 1):
+                continue
+            A = rq(x, Fraction(-1, 2))          # mass^x . length^(-1/2)
+            Bq = rq(y, Fraction(1, 3))          # mass^y . length^(1/3)
+            npairs += 1
+            add("std::is_same_v<decltype(%s{} * %s{}), %s>" % (A, Bq, rq(x + y, Fraction(-1, 2) + Fraction(1, 3))),
+                "mass^%s.length^-1/2 * mass^%s.length^1/3 has exponents (%s, -1/6)" % (x, y, x + y))
+            add("std::is_same_v<decltype(%s{} / %s{}), %s>" % (A, Bq, rq(x - y, Fraction(-1, 2) - Fraction(1, 3))),
+                "mass^%s.length^-1/2 / mass^%s.length^1/3 has exponents (%s, -5/6)" % (x, y, x - y))
+            A2, B2 = rq(x, Fraction(0)), rq(y, Fraction(0))
+            add("%scan_add<%s, %s>" % ("" if x == y else "!", A2, B2), "mass^%s + mass^%s is %s" % (x, y, "well-formed" if x == y else "rejected"))
+    for x in fr:
+        A = rq(x, Fraction(1, 3))
+        for (n_, d_) in ((1, 2), (2, 3), (3, 1), (-1, 2)):
+            k = Fraction(n_, d_)
+            if n_ < 0:
+                continue
+            add("std::is_same_v<decltype(power<%d, %d>(%s{})), %s>" % (n_, d_, A, rq(x * k, Fraction(1, 3) * k)),
+                "power<%d,%d>(mass^%s.length^1/3)" % (n_, d_, x))
+    rep.count("pairs of rational exponents", npairs)
     L.append('static_assert(can_add<qt<u::Mass, double>, qt<u::Length, double>>, "CONTROL");')
     wd = os.path.join(OUT, "C20")
     os.makedirs(wd, exist_ok=True)
@@ -130,6 +161,7 @@ def run(tier):
         else:
             rep.ok(what, sample=(i % 997 == 0))
     rep.floor("type-level witnesses", 1500)
+    rep.floor("pairs of rational exponents", 60)
     transparency(rep)
     rep.assumptions += ["value types float/long double and references (qt_ref) are not enumerated; compound expressions are covered by "
                         "compositionality of typing", "quick tier: 16 units (all ordered pairs); thorough: every named unit"]
